@@ -88,10 +88,6 @@ Print Assumptions postponed_has_message.
 
 (* ---- the hypotheses are satisfiable: a run with an early iterating consumer (0), a late
    one (1), a single get (2) that is cancelled, a slow consumer, close with pending messages *)
-Definition demo : list op :=
-  [Sub 0 Iter; Put 10; Sub 1 Iter; Sub 2 Single; Put 11; Fault 2; Resume 0; Put 12; Close;
-   Next 0; Resume 1; Resume 0; Next 1; Next 0; Resume 1; Resume 0; Next 0; Leave 1; Finalise 1].
-
 Example demo_outs : run_outs init demo =
   [RSleep; RNone; RSleep; RSleep; RNone; RRaised; RYield 10%Z; RNone; RNone;
    RPostpone; RYield 11%Z; RYield 11%Z; RPostpone; RPostpone; RYield 12%Z; RYield 12%Z; REnded;
